@@ -2,7 +2,10 @@
 // © James Ross Ω FLYING•ROBOTS <https://github.com/flyingrobots>
 //! Canonical delta merge for parallel execution.
 
+#[cfg(not(feature = "echo_verif_flat"))]
 use std::collections::BTreeSet;
+#[cfg(feature = "echo_verif_flat")]
+use crate::verif_flat::BTreeSet;
 
 #[cfg(any(test, feature = "delta_validate"))]
 use super::exec::PoisonedDelta;
